@@ -348,6 +348,26 @@ static std::vector<Case> build_cases(mon::Rng& rng)
     c.call = [](Obs& o) { int r = (*Wd::tptr<int>(*SB, 4288)).copy_and_verify([&](const int& v) { observe(o, &v, sizeof(int)); return v; }); set_result(o, r); };
     cs.push_back(c);
   }
+  // --- copy_and_verify_string on a char* that itself lives in sandbox memory (tainted_volatile<char*>): the sandbox can
+  //     retarget or null the pointer between the measurement of the string and its copy
+  for (int flavour = 0; flavour < 2; flavour++) {
+    Case c;
+    c.name = mon::fmt("copy_and_verify_string/volatile-pointer/%s", flavour ? "std-string" : "unique_ptr");
+    c.off = 4520; c.len = 4; c.A = bytes_of(uint32_t(0x2800)); c.acts = { A_RETARGET, A_ZERO };
+    // the cell designates one of two strings of equal length (RETARGET writes 0x2000); a null cell designates nothing
+    c.elems = [](const Bytes& s) {
+      uint32_t t; memcpy(&t, s.data(), 4);
+      const char* str = t == 0x2800 ? "string-one!!" : (t == 0x2000 ? "string-two!!" : "\0\0\0\0\0\0\0\0\0\0\0\0");
+      return std::vector<Bytes>{ Bytes(reinterpret_cast<const unsigned char*>(str), reinterpret_cast<const unsigned char*>(str) + 13) };
+    };
+    c.call = [flavour](Obs& o) {
+      { trap::Pause p; memcpy(reinterpret_cast<void*>(BASE + 0x2800), "string-one!!", 13); memcpy(reinterpret_cast<void*>(BASE + 0x2000), "string-two!!", 13); }
+      tainted_volatile<char*, S>& cell = *Wd::tptr<char*>(*SB, 4520);
+      if (flavour == 0) cell.copy_and_verify_string([&](std::unique_ptr<char[]> v) { if (v) observe(o, v.get(), 13); return 0; });
+      else cell.copy_and_verify_string([&](std::string v) { if (!v.empty()) observe(o, v.c_str(), 13); return 0; });
+    };
+    cs.push_back(c);
+  }
   // --- ranges
   {
     Case c; c.name = "copy_and_verify_range/char6"; c.off = 4300; c.len = 6; c.A = { 'r', 'a', 'n', 'g', 'e', '!' }; c.acts = val_acts;
